@@ -572,7 +572,7 @@ class InProtocolBase(ProtocolMixin):
                 or all(v is None for k, v in match.groupdict().items()
                                                              if k != 'sign'):
             raise ValidationError(string,
-                "Time data '%%s' does not match regex '%s'" %
+                "Time data %%r does not match regex '%s'" %
                                                         (_duration_re.pattern,))
 
         duration = match.groupdict(0)
